@@ -260,6 +260,8 @@ func init() {
 		c.commandCases("client", c.pick(160, 1600))
 	}
 	props["C09"] = func(c *ctx) {
+		// the CAN output configuration decoder on kept and preallocated destinations (total on every payload)
+		c.canOutSequences(c.pick(60, 600))
 		// arbitrary bytes, grammar-mutated traffic, mutated captures: the documented loop must survive them
 		for i := 0; i < c.pick(120, 1200); i++ {
 			var stream []byte
